@@ -432,13 +432,28 @@ pub fn worker(args: &[String]) -> i32 {
     for t in &ts {
         let n_max = 2 * t.overhead + tier.pick(64, 256) + if t.overhead == 0 { 160 } else { 0 };
         for n in 0..=n_max {
-            for class in 0..5 {
+            // thorough: additionally EVERY single byte of the authentic sample mutated 3 ways
+            let extra: usize = if tier == Tier::Thorough && n <= 2 * t.overhead + 96 { 3 * n } else { 0 };
+            for class in 0..(5 + extra) {
                 idx += 1;
                 if idx % nshards != shard {
                     continue;
                 }
-                let input = class_bytes(t, &fx, seed, class, n);
-                note(&format!("{} len {} class {}", t.name, n, CLASS_NAMES[class]));
+                let (input, cname): (Vec<u8>, String) = if class < 5 {
+                    (class_bytes(t, &fx, seed, class, n), CLASS_NAMES[class].to_string())
+                } else {
+                    let k = class - 5;
+                    let mut s = (t.sample)(&fx, n);
+                    s.truncate(n);
+                    let pos = k / 3;
+                    match k % 3 {
+                        0 => s[pos] ^= 0x01,
+                        1 => s[pos] ^= 0x80,
+                        _ => s[pos] = 0,
+                    }
+                    (s, format!("valid-byte{}-mutation{}", pos, k % 3))
+                };
+                note(&format!("{} len {} class {}", t.name, n, cname));
                 reset_max();
                 let r = (t.call)(&fx, &input);
                 let big = get_max();
@@ -449,7 +464,7 @@ pub fn worker(args: &[String]) -> i32 {
                 };
                 st.eval(&(&t.name, n, class), true, oc);
                 if let Err(p) = &r {
-                    st.fail(Fail { check: "C04.total".into(), signature: format!("C04/{}/panic/{}", t.name, if n < t.overhead { "shorter-than-overhead" } else { "at-least-overhead" }), what: format!("{} panicked on a {}-byte {} input: {}", t.name, n, CLASS_NAMES[class], p), case: json!({"target": t.name, "input": hx(&input)}) });
+                    st.fail(Fail { check: "C04.total".into(), signature: format!("C04/{}/panic/{}", t.name, if n < t.overhead { "shorter-than-overhead" } else { "at-least-overhead" }), what: format!("{} panicked on a {}-byte {} input: {}", t.name, n, cname, p), case: json!({"target": t.name, "input": hx(&input)}) });
                 }
                 if big > alloc_limit(n) {
                     st.fail(Fail { check: "C04.total".into(), signature: format!("C04/{}/absurd-allocation", t.name), what: format!("{} requested a single allocation of {} bytes for a {}-byte input", t.name, big, n), case: json!({"target": t.name, "input": hx(&input)}) });
